@@ -161,7 +161,12 @@ Inductive val :=
 | VStr (s : text)                          (* a primitive, as its text *)
 | VList (l : list text)                    (* array of primitives *)
 | VObj (fs : list (text * val))            (* ComplexModel instance: attribute dict *)
-| VArr (m : list (Z * Z)) (l : list val).  (* list of instances + its entry idxmap[id(list)] *)
+| VArr (m : list (Z * Z)) (l : list val).  (* list of instances + its entry idxmap[id(list)]: one map per list
+                                              OBJECT.  Faithful only if an id is never reused while the document is
+                                              processed, i.e. every list that got a map stays referenced (repaired
+                                              tree: the map is stored next to its list; before that fix a list
+                                              dropped by an 'empty' marker could hand its id and its stale map to
+                                              the next list -> IndexError, finding C03|GET-malformed|...) *)
 
 Definition fresh (fields : list (text * ty)) : list (text * val) :=
   map (fun f => (fst f, VNone)) fields.
